@@ -50,6 +50,7 @@ type transparentUplink struct {
 	clientName     string
 	clientAddrPort netip.AddrPort
 	natConn        *conn.MmsgWConn
+	natConnState   *atomic.Pointer[net.UDPConn]
 	natConnSendCh  <-chan *transparentQueuedPacket
 	natConnPacker  zerocopy.ClientPacker
 	natTimeout     time.Duration
@@ -351,6 +352,7 @@ func (s *UDPTransparentRelay) recvFromServerConnRecvmmsg(ctx context.Context, ln
 							clientName:     clientInfo.Name,
 							clientAddrPort: clientAddrPort,
 							natConn:        natConn.NewWConn(),
+							natConnState:   &entry.state,
 							natConnSendCh:  natConnSendCh,
 							natConnPacker:  clientSession.Packer,
 							natTimeout:     lnc.natTimeout,
@@ -514,6 +516,14 @@ main:
 				zap.Duration("natTimeout", uplink.natTimeout),
 				zap.Error(err),
 			)
+		}
+
+		// Stop may have just set an immediate deadline to end this session.
+		// Do not let an in-flight packet keep the session alive until the NAT timeout.
+		if uplink.natConnState.Load() != uplink.natConn.UDPConn {
+			if err := uplink.natConn.SetReadDeadline(conn.ALongTimeAgo); err != nil {
+				uplink.logger.Error("Failed to set read deadline on natConn", zap.Error(err))
+			}
 		}
 
 		qpvecn := qpvec[:count]
